@@ -90,6 +90,12 @@ struct Ctx {
   }
   bool want_sample() { return sample_seen < 3 || (sample_rng.next() & 1023) == 0; }
 
+  // Free-form record for offline checkers (cross-configuration comparison): one JSON object per line.
+  void record(const std::string& json_fields) {
+    if (!out) return;
+    fprintf(out, "{\"t\":\"rec\",\"index\":%llu,%s}\n", (unsigned long long)index, json_fields.c_str());
+  }
+
   // Report a violation of the property.  clause = short stable name of the
   // oracle clause; detail = what differs; witness = the case, written out.
   void violation(const std::string& clause, const std::string& detail, const std::string& witness) {
